@@ -57,17 +57,18 @@ def embed(img, K, gtes_real):
     return ents, present
 
 
-def _grain_blob(q, grain_bytes, *, compressed, lba, lba_value=0, level=6):
+def _grain_blob(q, grain_bytes, *, compressed, lba, lba_value=0, level=6, noise=0):
     if not compressed:
         return None
-    raw = patterns.cpat(q, 0, grain_bytes)
+    raw = patterns.npat(q, noise, 0, grain_bytes)
     comp = zlib.compress(raw, level)
     hdr = struct.pack("<QI", lba_value, len(comp)) if lba else struct.pack("<I", len(comp))
     return hdr + comp
 
 
 def build_hosted(ents, present, *, capacity, grain, gtes, footer=False, compressed=False, lba=True, file_id=0, desc=None,
-                 slot_mult=1, level=6, rgd=False, max_pos=None, name=None, magic=b"KDMV", version=1, zero_gte=True):
+                 slot_mult=1, level=6, rgd=False, max_pos=None, name=None, magic=b"KDMV", version=1, zero_gte=True,
+                 tight=False, noise=None):
     """ents: per real grain ("U"|"Z"|"D", q); present: per real grain table bool.
     capacity, grain in sectors.  Returns (VirtualFile, info)."""
     gbytes = grain * SECTOR
@@ -83,6 +84,15 @@ def build_hosted(ents, present, *, capacity, grain, gtes, footer=False, compress
     top = (max(used) + 1) if used else 0
     if max_pos is not None:
         top = max(top, max_pos)
+    blobs, tight_sector = {}, {}
+    if compressed and tight:
+        # stream-optimised layout: compressed grains packed back to back at sector granularity, in position order
+        cur_s = 0
+        for q in sorted(used):
+            blobs[q] = _grain_blob(q, gbytes, compressed=True, lba=lba, level=level, noise=(noise or {}).get(q, 0))
+            tight_sector[q] = cur_s
+            cur_s += -(-len(blobs[q]) // SECTOR)
+        top_sectors = cur_s
     gd_sectors = -(-(ngd * 4) // SECTOR)
     gt_sectors = -(-(gtes * 4) // SECTOR)
     ext = []
@@ -95,10 +105,10 @@ def build_hosted(ents, present, *, capacity, grain, gtes, footer=False, compress
     if not footer:
         gd_off, gt0, cur = layout_tables(cur)
         data_base = -(-cur // slot) * slot
-        end = data_base + top * slot
+        end = data_base + (top_sectors if tight_sector else top * slot)
     else:
         data_base = -(-cur // slot) * slot
-        end_data = data_base + top * slot
+        end_data = data_base + (top_sectors if tight_sector else top * slot)
         gd_off, gt0, end = layout_tables(end_data)
     # grain directory + tables
     gd = []
@@ -109,7 +119,7 @@ def build_hosted(ents, present, *, capacity, grain, gtes, footer=False, compress
             for r in range(t * gtes, (t + 1) * gtes):
                 if r < len(ents):
                     k, q = ents[r]
-                    tab.append(0 if k in ("U", "F") else 1 if k == "Z" else data_base + q * slot)
+                    tab.append(0 if k in ("U", "F") else 1 if k == "Z" else (data_base + tight_sector[q] if tight_sector else data_base + q * slot))
                 else:
                     tab.append(0)
             ext.append(((gt0 + t * gt_sectors) * SECTOR, gtes * 4, "bytes", struct.pack(f"<{gtes}I", *tab)))
@@ -118,8 +128,10 @@ def build_hosted(ents, present, *, capacity, grain, gtes, footer=False, compress
     # data
     if compressed:
         for k, q in ents:
-            if k == "D":
-                blob = _grain_blob(q, gbytes, compressed=True, lba=lba, level=level)
+            if k == "D" and tight_sector:
+                ext.append(((data_base + tight_sector[q]) * SECTOR, len(blobs[q]), "bytes", blobs[q]))
+            elif k == "D":
+                blob = _grain_blob(q, gbytes, compressed=True, lba=lba, level=level, noise=(noise or {}).get(q, 0))
                 assert len(blob) <= slot * SECTOR, ("compressed grain does not fit its slot", len(blob), slot * SECTOR)
                 ext.append(((data_base + q * slot) * SECTOR, len(blob), "bytes", blob))
     elif top:
